@@ -200,7 +200,7 @@ def judge(run, case, r, ev):
 
 def run(run):
     from .. import session
-    run.mc('MC_Ingest', f'MC_Ingest_{run.tier}', timeout=3000)
+    run.mc('MC_Ingest', f'MC_Ingest_irr_{run.tier}', timeout=3000)
     cases = plan(run)
     par.G['seed'] = run.seed
     par.G['fields'] = session.fields()
